@@ -590,6 +590,15 @@ def reference(line):
         if op == "inst":
             ms = int(t[1])
             return py_inst(ms) if MS_MIN <= ms <= MS_MAX else None
+        if op == "instu":
+            ms = round_ms(int(t[1]))
+            return py_inst(ms) if MS_MIN <= ms <= MS_MAX else None
+        if op == "splitu":
+            ms = round_ms(int(t[1]))
+            return " ".join(str(v) for v in py_fields(ms)[:7]) if MS_MIN <= ms <= MS_MAX else None
+        if op == "fmtu":
+            ms = round_ms(int(t[2]))
+            return hexs(py_fmt(int(t[1]), ms).encode()) if MS_MIN <= ms <= MS_MAX else None
         if op == "fmt":
             ms = int(t[2])
             return hexs(py_fmt(int(t[1]), ms).encode()) if MS_MIN <= ms <= MS_MAX else None
@@ -757,6 +766,40 @@ def gen(rng, tier):
             day_of(1903, 12, 31) * 86400000, day_of(2100, 3, 1) * 86400000, day_of(1900, 2, 28) * 86400000 + 86399999, day_of(1900, 3, 1) * 86400000]
     for ms in edge + [rand_ms(rng) for _ in range(4000 if big else 600)]:
         cases.append(["inst %d" % ms, "split %d" % ms] + ["fmt %d %d" % (k, ms) for k in range(5)] + ["rt %d %d" % (k, ms) for k in (0, 1, 3, 4)])
+    # --- a fraction of a millisecond around every kind of field boundary (end of second / minute / hour / day / month / year):
+    #     the double cannot resolve the 500 us tie, so offsets keep 60 us from it (2 us for instants within 1e9 s of the epoch)
+    def next_boundary(ms, kind):
+        y, m, d, h, mi, sec = py_fields(ms)[:6]
+        if kind == 0:
+            return (ms // 1000 + 1) * 1000
+        if kind == 1:
+            return (ms // 60000 + 1) * 60000
+        if kind == 2:
+            return (ms // 3600000 + 1) * 3600000
+        if kind == 3:
+            return (ms // 86400000 + 1) * 86400000
+        if kind == 4:
+            return py_make(y + (m == 12), m % 12 + 1, 1, 0, 0, 0)
+        return py_make(y + 1, 1, 1, 0, 0, 0)
+    deltas = [-900, -800, -700, -560, -440, -300, -200, -100, -1, 0, 1, 100, 300, 440, 560, 700, 900, 999]
+    near = [-501, -499, 499, 501, -502, 498]
+    batch = []
+    for _ in range(2500 if big else 350):
+        ms = min(max(rand_ms(rng), MS_MIN), MS_MAX - 400 * 86400000)
+        b = next_boundary(ms, rng.randrange(6))
+        if not (MS_MIN < b < MS_MAX):
+            continue
+        ds = list(deltas)
+        if abs(b) < 10 ** 12:
+            ds += near
+        elif abs(b) > 10 ** 13:
+            ds = [x for x in ds if abs(x) != 440 and abs(x) != 560]      # keep 200 us from the second boundary after rounding
+        for dl in ds:
+            batch.append("%s %d" % (rng.choice(["instu", "instu", "splitu", "fmtu 4", "fmtu 3"]), b * 1000 + dl))
+        cases.append(batch)
+        batch = []
+    for k in (-719162, -1, 0, 1, 11016, 47482, 2932896):       # t = 86400 k - eps, eps = 0.0001 .. 0.0009 s
+        cases.append(["instu %d" % (k * 86400 * 1000000 - e) for e in (100, 200, 300, 400, 600, 700, 800, 900) if not (abs(k) > 100000 and e in (400, 600))])
     # --- every zone offset -23:59..+23:59 (all styles in thorough, one random style each in quick)
     batch = []
     for sign in (1, -1):
@@ -884,7 +927,7 @@ def gen(rng, tier):
 
 
 def nontrivial(case):
-    return any(l.split()[0] in ("inst", "split", "make", "rt", "fmt", "parsefmt") or (l.startswith("parse ") and len(l.split()[1]) >= 16) for l in case)
+    return any(l.split()[0] in ("inst", "instu", "split", "splitu", "make", "rt", "fmt", "fmtu", "parsefmt") or (l.startswith("parse ") and len(l.split()[1]) >= 16) for l in case)
 
 
 def _parse_class(b):
@@ -951,12 +994,31 @@ def scan_lines(rng, tier):
                 inst += n
                 i += n
 
+    def strided0(op, stride, off, mode):
+        """00:00:00 only: mode 0 = exactly midnight (t = 86400 k), mode 2 = 100..900 microseconds before midnight"""
+        nonlocal inst
+        n_total = (DAY_MAX - (DAY_MIN + off)) // stride + 1
+        i = 0
+        while i < n_total:
+            n = min(CH, n_total - i)
+            lines.append("%s %d %d 0 %d %d" % (op, DAY_MIN + off + stride * i, n, stride, mode))
+            inst += n
+            i += n
+
     if quick:
-        strided("oscan", 61, rng.randrange(61))
-        strided("scan", 499, rng.randrange(499))
+        o1, o2 = rng.randrange(61), rng.randrange(499)
+        strided("oscan", 61, o1)
+        strided("scan", 499, o2)
+        for mode in (0, 2):
+            strided0("oscan", 61, (o1 + 7 * mode + 3) % 61, mode)
+            strided0("scan", 499, (o2 + 7 * mode + 3) % 499, mode)
     else:
         strided("oscan", 1, 0)
-        strided("scan", 7, rng.randrange(7))
+        o7 = rng.randrange(7)
+        strided("scan", 7, o7)
+        for mode in (0, 2):
+            strided0("oscan", 1, 0, mode)
+            strided0("scan", 7, (o7 + mode + 1) % 7, mode)
     r8 = rng.randrange(8)
     for y in range(1, 10000):
         if quick and y % 8 != r8 and y % 100 not in (0, 1, 99) and not (1890 <= y <= 2110) and y not in (1, 2, 9998, 9999):
@@ -964,7 +1026,10 @@ def scan_lines(rng, tier):
         a = max(DAY_MIN, day_of(y, 1, 1) - 2)
         lines.append("scan %d %d %d 1" % (a, 4, sods[(y + r8) % 3]))
         lines.append("scan %d %d %d 1" % (day_of(y, 2, 27), 4, sods[(y + r8 + 1) % 3]))
-        inst += 8
+        # the same days exactly at midnight and a fraction of a millisecond before it
+        lines.append("scan %d %d 0 1 %d" % (a, 4, 2 if (y + r8) % 2 else 0))
+        lines.append("scan %d %d 0 1 %d" % (day_of(y, 2, 27), 4, 0 if (y + r8) % 2 else 2))
+        inst += 16
     sp = [day_of(*x) for x in SPECIAL_DAYS]
     if quick:
         odays = [rng.choice(sp + [rng.randrange(DAY_MIN, DAY_MAX + 1) for _ in range(len(sp))])]
@@ -981,13 +1046,29 @@ def scan_lines(rng, tier):
     return lines, inst, odays + mdays
 
 
+def round_ms(us):
+    """nearest millisecond, ties up"""
+    return (us + 500) // 1000
+
+
+def us_of_day(day, mode):
+    if mode == 0:
+        return 0
+    if mode == 1:
+        return (day * 7919) % 1000 * 1000
+    return -[100, 200, 300, 700, 800, 900][(day * 7919) % 6]
+
+
 def instants_of(line):
+    """the scanned instants in microseconds"""
     t = line.split()
     if t[0] in ("scan", "oscan"):
         d0, n, sod, st = int(t[1]), int(t[2]), int(t[3]), int(t[4])
-        return [((d0 + st * i) * 86400 + sod) * 1000 + ((d0 + st * i) * 7919) % 1000 for i in range(n)]
+        mode = int(t[5]) if len(t) > 5 else 1
+        us = [((d0 + st * i) * 86400 + sod) * 1000000 + us_of_day(d0 + st * i, mode) for i in range(n)]
+        return [u for u in us if MS_MIN <= round_ms(u) <= MS_MAX]
     day, s0, n = int(t[1]), int(t[2]), int(t[3])
-    return [(day * 86400 + s0 + i) * 1000 for i in range(n)]
+    return [(day * 86400 + s0 + i) * 1000000 for i in range(n)]
 
 
 EXHAUSTIVE = {"quick": "sample only: every 61st day (implementation vs built-in oracle) and every 499th day (vs model) of 0001-01-01..9999-12-31 at 00:00:00, "
@@ -1031,7 +1112,7 @@ def extra(ctx):
         if len(fails) >= 3:
             continue
         # exact bisection: replay every instant of the offending line as a verbose `inst` op
-        ins = ["inst %d" % ms for ms in instants_of(b[bad])]
+        ins = ["instu %d" % us for us in instants_of(b[bad])]
         impl2, crash2, err2 = core.run_impl(exe, ["case 0"] + ins, timeout=600)
         model2 = core.run_model(DRIVER, ["case 0"] + ins)
         k = None
